@@ -232,7 +232,7 @@ class Path(object):
 
 class Config(object):
     def __init__(self, maxdepth=3, maxpaths=4000, inline=None, may_raise=None, assume_asserts=True,
-                 inline_init=True, unroll=1, fork_handlers=True, immediate_callbacks=False):
+                 inline_init=True, unroll=1, fork_handlers=True, immediate_callbacks=False, loads=()):
         self.maxdepth = maxdepth
         self.maxpaths = maxpaths
         self.inline = inline  # fn(fi, ev, path) -> bool ; None = default policy
@@ -242,6 +242,7 @@ class Config(object):
         self.unroll = unroll
         self.fork_handlers = fork_handlers
         self.immediate_callbacks = immediate_callbacks
+        self.loads = tuple(loads)  # attribute names whose reads are recorded as "load" events
 
 
 LOG_METHODS = {"debug", "info", "warning", "error", "exception", "critical"}
@@ -1110,6 +1111,8 @@ class Interp(object):
 
     def getattr_value(self, b, attr, p, node):
         t = ("attr", b, attr)
+        if attr in self.cfg.loads:
+            self.emit(p, "load", node, {"target": t})
         if t in p.heap:
             hv = p.heap[t]
             if hv == ("deleted",):
